@@ -18,14 +18,16 @@ RULE = ('rows = (rule set over names {a,b,default} each absent/@/!/role:x/role:y
         '(default-rule configuration: unset, constructor name default/b/ghost, constructor check object True/False/Role, '
         'option policy_default_rule = b / empty) x (rules installed by set_rules / constructor / policy file) x '
         '(queried name a,b,default,ghost,zzz) x (4 role sets) x do_raise off/on. Non-trivial = the queried name is '
-        'not defined in the rule set (the fallback decides); distinct = distinct row.')
+        'not defined in the rule set (the fallback decides); distinct = distinct row. Stratum `mutation`: the same table re-checked after the '
+        'rule set of a living enforcer changed (merge without overwrite, direct store update, item assignment / deletion, overwrite, '
+        'file reload in non-overwrite mode), against the CURRENT rule set.')
 ASSUMPTIONS = ['rule bodies contain no rule: references (reference cycles through the default are C06/C13 territory)',
                'role:x / role:y / @ / ! leaves evaluate as C01/C04 state']
 LEVEL_TEXT = ('The complete decision table of the statement (about 1.3e5 rows) is driven through the real enforcer and '
               'compared row by row; a finite quantifier, so enumeration is the right level.')
 LEVEL_NOTE = 'trusted: the 12-line reference function; the name/role universe is small by design'
 PLAN = {'quick': dict(shards=4, wall=90), 'thorough': dict(shards=8, wall=300)}
-MIN = {'evaluations': 10000, 'fallback_rows': 2000, 'allow_decisions': 1000, 'deny_decisions': 1000}
+MIN = {'mutation_decisions': 20000, 'evaluations': 10000, 'fallback_rows': 2000, 'allow_decisions': 1000, 'deny_decisions': 1000}
 ANCHORS = ['oslo_policy.policy:Rules.__missing__', 'oslo_policy.policy:Enforcer.enforce',
            'oslo_policy.policy:Enforcer.set_rules', 'oslo_policy.policy:Rules.__init__']
 REQUIRED_ANCHORS = ['oslo_policy.policy:Enforcer.enforce']
@@ -137,6 +139,96 @@ def check_config(ctx, rules, dcfg, via):
         ctx.violation('contract-' + name, dict(rules=rules, dcfg=dcfg, via=via), {'contract': name, 'observed': info})
 
 
+def table_ok(ctx, enf, rules, dcfg, case, label):
+    for q in QUERIES:
+        for roles in CREDS:
+            want = reference(rules, dcfg, q, roles)
+            try:
+                got = bool(enf.enforce(q, {}, {'roles': list(roles)}))
+            except Exception as e:
+                got = 'EXC:' + type(e).__name__
+            ctx.count('mutation_decisions')
+            if got != want:
+                ctx.violation('stale-fallback-after-rule-set-change', case,
+                              {'after': label, 'current_rules': rules, 'default_config': dcfg, 'queried': q, 'roles': roles,
+                               'expected': want, 'observed': got})
+                return False
+    return True
+
+
+MUTATIONS = ['merge-set_rules', 'update-store', 'setitem', 'delitem', 'overwrite-set_rules', 'file-merge']
+
+
+def check_mutation(ctx, case):
+    """The rule set changes while the enforcer lives (merge without overwrite, direct store update, item assignment /
+    deletion, file reload in non-overwrite mode); after each change the whole decision table must follow the CURRENT rule set."""
+    from oslo_policy import policy, _parser
+    rules, dcfg, mut, change = dict(case['rules']), case['dcfg'], case['mutation'], case['change']
+    via = 'file' if mut == 'file-merge' else 'set_rules'
+    if mut == 'file-merge':
+        from oslo_policy import _checks
+        kw = {}
+        ov = {}
+        enf_tree = files.Tree(dirs=())
+        enf_tree.write(os.path.basename(enf_tree.main), rules, 'json')
+        enf, tree = build_overwrite_false(policy, enf_tree, dcfg)
+    else:
+        enf, tree = build(rules, dcfg, via)
+    try:
+        ctx.case(case, nontrivial=True, stratum='mutation')
+        if not table_ok(ctx, enf, rules, dcfg, case, 'initial'):      # also warms every lookup path
+            return
+        cur = dict(rules)
+        if mut == 'merge-set_rules':
+            cur.update(change)
+            enf.set_rules(policy.Rules.from_dict(change), overwrite=False)
+        elif mut == 'update-store':
+            cur.update(change)
+            enf.rules.update({k: _parser.parse_rule(v) for k, v in change.items()})
+        elif mut == 'setitem':
+            cur.update(change)
+            for k, v in change.items():
+                enf.rules[k] = _parser.parse_rule(v)
+        elif mut == 'delitem':
+            for k in change:
+                if k in cur and len(cur) > 1:
+                    del cur[k]
+                    del enf.rules[k]
+        elif mut == 'overwrite-set_rules':
+            cur = dict(change)
+            enf.set_rules(policy.Rules.from_dict(change), overwrite=True)
+        elif mut == 'file-merge':
+            cur.update(change)
+            tree.write(os.path.basename(tree.main), change, 'json')
+        table_ok(ctx, enf, cur, dcfg, case, mut)
+    finally:
+        if tree:
+            tree.cleanup()
+
+
+def build_overwrite_false(policy, tree, dcfg):
+    from oslo_policy import _checks
+    kw, overrides = {}, {}
+    if dcfg == 'ctor_default':
+        kw['default_rule'] = 'default'
+    elif dcfg == 'ctor_other':
+        kw['default_rule'] = 'b'
+    elif dcfg == 'ctor_ghost':
+        kw['default_rule'] = 'ghost'
+    elif dcfg == 'obj_true':
+        kw['default_rule'] = _checks.TrueCheck()
+    elif dcfg == 'obj_false':
+        kw['default_rule'] = _checks.FalseCheck()
+    elif dcfg == 'obj_role':
+        kw['default_rule'] = _checks.RoleCheck('role', 'x')
+    elif dcfg == 'opt_b':
+        overrides['policy_default_rule'] = 'b'
+    elif dcfg == 'opt_empty':
+        overrides['policy_default_rule'] = ''
+    enf = policy.Enforcer(tree.conf(policy_dirs=[], **overrides), overwrite=False, **kw)
+    return enf, tree
+
+
 def run(ctx):
     contracts.missing_never_none()
     idx = 0
@@ -157,10 +249,40 @@ def run(ctx):
                                 'role_sets': CREDS})
     ctx.sample({'rules': {'a': '!'}, 'default_config': 'ctor_ghost', 'installed_via': 'set_rules', 'queried': QUERIES})
     ctx.stratum('table', exhaustive=done)
+    # ---- the rule set changes under a living enforcer -------------------------
+    changes = [{'default': '!'}, {'default': '@'}, {'b': '@'}, {'b': '!'}, {'default': 'role:y', 'a': '@'}, {'a': 'role:x'}, {'ghost': '@'}]
+    midx = 0
+    mdone = True
+    for ba, bb, bd in itertools.product(BODIES, repeat=3):
+        rules = {k: v for k, v in (('a', ba), ('b', bb), ('default', bd)) if v is not None}
+        if not rules:
+            continue
+        for dcfg in DCFGS:
+            for mut in MUTATIONS:
+                for ci, change in enumerate(changes):
+                    midx += 1
+                    if not ctx.mine(midx):
+                        continue
+                    if ctx.tier == 'quick' and (midx // ctx.nshards) % 4:
+                        continue                # quick: every fourth mutation case; thorough: all
+                    if (midx & 0xff) == 0 and ctx.expired():
+                        mdone = False
+                        break
+                    check_mutation(ctx, dict(rules=rules, dcfg=dcfg, mutation=mut, change=change))
+                if not mdone:
+                    break
+            if not mdone:
+                break
+        if not mdone:
+            break
+    ctx.stratum('mutation', exhaustive=mdone and ctx.tier == 'thorough')
+    ctx.sample(dict(rules={'a': 'role:x', 'default': '@'}, dcfg='unset', mutation='merge-set_rules', change={'default': '!'}), 'mutation')
     for k, v in contracts.EVALS.items():
         ctx.count('contract_evals.' + k, v)
 
 
 def replay(ctx, case):
     contracts.missing_never_none()
+    if 'mutation' in case:
+        return check_mutation(ctx, case)
     check_config(ctx, case['rules'], case['dcfg'], case['via'])
